@@ -151,8 +151,12 @@ impl FixedCapacityPoolStats {
 /// Free list head for a size class
 #[derive(Debug)]
 struct FreeListHead {
-    /// Head of free list (as offset)
-    head: AtomicU32,
+    /// Head of free list, packed: upper 32 bits = generation, lower 32 bits = offset.
+    ///
+    /// The generation is incremented by every successful compare-exchange so that a
+    /// thread holding a stale (head, next) pair cannot install `next` after the same
+    /// head offset has been popped and pushed back by other threads (ABA).
+    head: AtomicU64,
     /// Count of free blocks in this size class
     count: AtomicU32,
 }
@@ -160,9 +164,19 @@ struct FreeListHead {
 impl FreeListHead {
     fn new() -> Self {
         Self {
-            head: AtomicU32::new(LIST_TAIL),
+            head: AtomicU64::new(Self::pack(LIST_TAIL, 0)),
             count: AtomicU32::new(0),
         }
+    }
+
+    #[inline]
+    fn pack(offset: u32, generation: u32) -> u64 {
+        ((generation as u64) << 32) | (offset as u64)
+    }
+
+    #[inline]
+    fn unpack(packed: u64) -> (u32, u32) {
+        ((packed & 0xFFFF_FFFF) as u32, (packed >> 32) as u32)
     }
 }
 
@@ -483,7 +497,7 @@ impl FixedCapacityMemoryPool {
         }
 
         // Set up free list head
-        free_list.head.store(0, Ordering::Relaxed);
+        free_list.head.store(FreeListHead::pack(0, 0), Ordering::Relaxed);
         free_list.count.store(self.config.total_blocks as u32, Ordering::Relaxed);
 
         Ok(())
@@ -518,7 +532,7 @@ impl FixedCapacityMemoryPool {
         }
 
         // Set up free list head
-        free_list.head.store(0, Ordering::Relaxed);
+        free_list.head.store(FreeListHead::pack(0, 0), Ordering::Relaxed);
         free_list.count.store(self.config.total_blocks as u32, Ordering::Relaxed);
 
         Ok(())
@@ -533,9 +547,10 @@ impl FixedCapacityMemoryPool {
         loop {
             #[cfg(zipora_verif)]
             crate::memory::verif_sched::point(crate::memory::verif_sched::FC_POP_LOAD);
-            let current_head = free_list.head.load(Ordering::Acquire);
+            let packed = free_list.head.load(Ordering::Acquire);
+            let (current_head, generation) = FreeListHead::unpack(packed);
             #[cfg(zipora_verif)]
-            crate::memory::verif_sched::note(crate::memory::verif_sched::FC_POP_LOAD, current_head as u64);
+            crate::memory::verif_sched::note(crate::memory::verif_sched::FC_POP_LOAD, packed);
             
             if current_head == LIST_TAIL {
                 // Try to split from larger size class
@@ -564,8 +579,8 @@ impl FixedCapacityMemoryPool {
 
             // Try to update head atomically
             if free_list.head.compare_exchange_weak(
-                current_head,
-                next_offset,
+                packed,
+                FreeListHead::pack(next_offset, generation.wrapping_add(1)),
                 Ordering::Release,
                 Ordering::Relaxed,
             ).is_ok() {
@@ -593,7 +608,7 @@ impl FixedCapacityMemoryPool {
             let free_list = &free_lists[larger_class];
             #[cfg(zipora_verif)]
             crate::memory::verif_sched::point(crate::memory::verif_sched::FC_SPLIT_PEEK);
-            let head = free_list.head.load(Ordering::Acquire);
+            let (head, _) = FreeListHead::unpack(free_list.head.load(Ordering::Acquire));
             
             if head != LIST_TAIL {
                 // Try to allocate from larger class and split
@@ -628,10 +643,11 @@ impl FixedCapacityMemoryPool {
         loop {
             #[cfg(zipora_verif)]
             crate::memory::verif_sched::point(crate::memory::verif_sched::FC_PUSH_LOAD);
-            let current_head = free_list.head.load(Ordering::Acquire);
+            let packed = free_list.head.load(Ordering::Acquire);
+            let (current_head, generation) = FreeListHead::unpack(packed);
             #[cfg(zipora_verif)]
             {
-                crate::memory::verif_sched::note(crate::memory::verif_sched::FC_PUSH_LOAD, current_head as u64);
+                crate::memory::verif_sched::note(crate::memory::verif_sched::FC_PUSH_LOAD, packed);
                 crate::memory::verif_sched::point(crate::memory::verif_sched::FC_PUSH_NEXT);
             }
             header.next = current_head;
@@ -639,8 +655,8 @@ impl FixedCapacityMemoryPool {
             #[cfg(zipora_verif)]
             crate::memory::verif_sched::point(crate::memory::verif_sched::FC_PUSH_CAS);
             if free_list.head.compare_exchange_weak(
-                current_head,
-                offset,
+                packed,
+                FreeListHead::pack(offset, generation.wrapping_add(1)),
                 Ordering::Release,
                 Ordering::Relaxed,
             ).is_ok() {
@@ -663,9 +679,9 @@ impl FixedCapacityMemoryPool {
         self.size_classes.len()
     }
 
-    /// Verification inspector: `(head, count)` of the free list of size class `index`.
+    /// Verification inspector: `(packed head, count)` of the free list of size class `index`.
     #[cfg(zipora_verif)]
-    pub fn verif_class_state(&self, index: usize) -> Option<(u32, u32)> {
+    pub fn verif_class_state(&self, index: usize) -> Option<(u64, u32)> {
         let free_lists = unsafe { &*self.free_lists.get() };
         let fl = free_lists.get(index)?;
         Some((fl.head.load(Ordering::SeqCst), fl.count.load(Ordering::SeqCst)))
